@@ -118,6 +118,27 @@ def run(ctx):
         if inrange: R.add_prop([l], mk_oracle(case), 'printed time does not denote syncTime + (clock - syncClock)/frequency', (), d != 0)
         if rng.random() < 0.3:
             R.add_corr(line_for(case, rng.choice([b'%d\n', b'%u\n', b'%u %d %r\n']), gen_tfmt(rng)), ('random_date_format',))
+    # two clock syncs in one log, the same clock value under both: each event is rendered with the sync in force when it was read
+    for _ in range(ctx.n(300, 5000)):
+        a = mk_case(rng)
+        if reference(*a) is None: continue
+        b = (a[0], a[1], min(TWO63 - 1, max(0, a[2] + rng.choice([1, -1]) * rng.choice([10**9, 86400 * 10**9, 31 * 86400 * 10**9, 3 * 10**17]))), rng.choice(TZS), rng.choice([b'UTC', b'EST', b'B']), a[5])
+        if reference(*b) is None: continue
+        log = (e_cs(a[0], a[1], a[2], a[3] % (1 << 32), a[4]) + e_source(1, 128, b'', b'', b'', 0, b'', b'') + e_event(1, a[5])
+               + e_cs(b[0], b[1], b[2], b[3] % (1 << 32), b[4]) + e_event(1, b[5]))
+        l = 'print %s %s %s' % (hx(b'%d|%u\n'), hx(TF), hx(log))
+        oa, ob = mk_oracle(a), mk_oracle(b)
+        def both(outs, oa=oa, ob=ob):
+            t = outs[0].split(' ')
+            if t[0] != 'ok': return 'error reported'
+            ls = bytes.fromhex(t[1]).split(b'\n')
+            if len(ls) != 3: return 'expected two lines'
+            for o, x in ((oa, ls[0]), (ob, ls[1])):
+                v = o(['ok ' + (x + b'\n').hex()])
+                if v is not True: return v
+            return True
+        R.add_corr(l, ('two_syncs_same_clock',), True)
+        R.add_prop([l], both, 'printed time does not denote syncTime + (clock - syncClock)/frequency (second clock sync in the log)', (), True)
     # hostile clock syncs: correspondence only (totality is C09's business; the text must still agree)
     for _ in range(ctx.n(400, 10000)):
         f = rng.choice([0, 1 << 63, (1 << 64) - 1, (1 << 63) - 1, 9223372037, 1])
@@ -132,9 +153,27 @@ def search(ctx):
 
 def replay(ctx, rp):
     def orc(lines):
-        log = bytes.fromhex(lines[0].split(' ')[3]); p = log[4:]
-        sclock, f, sync = (int.from_bytes(p[8+8*i:16+8*i], 'little') for i in range(3))
-        tz = int.from_bytes(p[32:36], 'little', signed=True); n = int.from_bytes(p[36:40], 'little'); name = p[40:40+n]
-        clock = int.from_bytes(log[-8:], 'little')
-        return mk_oracle((sclock, f, sync, tz, name, clock))
+        log = bytes.fromhex(lines[0].split(' ')[3])
+        ents, i = [], 0
+        while i < len(log):
+            n = int.from_bytes(log[i:i + 4], 'little'); ents.append(log[i + 4:i + 4 + n]); i += 4 + n
+        def cs_of(p):
+            sclock, f, sync = (int.from_bytes(p[8 + 8 * k:16 + 8 * k], 'little') for k in range(3))
+            tz = int.from_bytes(p[32:36], 'little', signed=True); n = int.from_bytes(p[36:40], 'little')
+            return sclock, f, sync, tz, p[40:40 + n]
+        cases, cur = [], None
+        for p in ents:
+            tag = int.from_bytes(p[:8], 'little')
+            if tag == TAG_CS: cur = cs_of(p)
+            elif tag < (1 << 63) and cur is not None: cases.append(cur + (int.from_bytes(p[8:16], 'little'),))
+        if len(cases) == 1: return mk_oracle(cases[0])
+        def both(outs):
+            t = outs[0].split(' ')
+            if t[0] != 'ok': return 'error reported'
+            ls = bytes.fromhex(t[1]).split(b'\n')
+            for c, x in zip(cases, ls):
+                v = mk_oracle(c)(['ok ' + (x + b'\n').hex()])
+                if v is not True: return v
+            return True
+        return both
     return generic_replay(ctx, rp, orc)
